@@ -7,6 +7,7 @@ package aggregator
 
 import (
 	"bytes"
+	"math"
 	"strconv"
 	"strings"
 	"time"
@@ -75,6 +76,10 @@ func VerifC10Hist() {
 		panic(err)
 	}
 	InitMetrics()
+	// the timestamp range statistics (not part of the property) have already seen both extremes in this
+	// period, so that Sample's comparisons are decided and do not multiply the paths
+	rangeTracker.Sample(0)
+	rangeTracker.Sample(math.MaxUint32)
 	out := make(chan []byte, 64)
 	tick := make(chan time.Time, 1)
 	a, err := NewMocked(fun, m, outFmt, cache, interval, wait, false, out, 16, c10Now, tick)
@@ -91,10 +96,9 @@ func VerifC10Hist() {
 		tooOld0 := numTooOld.Count()
 		in0 := a.numIn.Count()
 
-		if verifChoice("kind", 2) == 0 {
+		if kind := verifChoice("event", 1+nnames); kind > 0 {
 			// ---- a point arrives
-			ni := verifChoice("name", nnames)
-			name := c10Names[ni]
+			name := c10Names[kind-1]
 			ts := verifUint32("ts")
 			val := c10Value(small)
 			a.AddMaybe([][]byte{[]byte(name), []byte("0"), []byte("0")}, val, ts)
